@@ -31,11 +31,15 @@ var (
 
 func loadKnown() *knownFile {
 	knownOnce.Do(func() {
-		dir := os.Getenv("VERIF_DIR")
-		if dir == "" {
-			dir = "/verif"
+		path := os.Getenv("VERIF_KF")
+		if path == "" {
+			dir := os.Getenv("VERIF_DIR")
+			if dir == "" {
+				dir = "/verif"
+			}
+			path = filepath.Join(dir, "known_findings.json")
 		}
-		b, err := os.ReadFile(filepath.Join(dir, "known_findings.json"))
+		b, err := os.ReadFile(path)
 		if err != nil {
 			return
 		}
